@@ -1,4 +1,5 @@
 """C04 Every uplink follows the WARP link state machine; no fabricated frames."""
+import re
 from mirlib import describe_rvalue, op_place, describe_place, AnchorMissing, describe_operand, dom_guards, guards, _suffix_match
 from rules import uplinks
 from rules.common import named_argument_rule, aggregates, callers_by_name, owner_def, where
@@ -131,6 +132,11 @@ def run(ctx):
             r.check(any(d.startswith("disc(get(") and "path.lane" in d and l == "None" for d, l, _ in g), "read_task/UnknownLane/lane-missing", rd.loc(line), "reported when the lane name has no mapping")
             r.check(any(d.startswith("is_command(") and l == "false" for d, l, _ in g), "read_task/UnknownLane/not-for-commands", rd.loc(line), "not reported for command envelopes (commands carry no return path)")
             snd = [c for c in rd.calls if c.name == "send" and rd.dominates(blk, c.block)]
+            # or handed to an async helper that does the sending: the future built from the message is one whose body sends
+            for i2, j2, p2, rv2, l2 in rd.assigns():
+                if rv2[0] == "agg" and isinstance(rv2[1], dict) and rv2[1].get("coroutine") in rt.by_def and rd.dominates(blk, i2):
+                    if any(o[0] in ("c", "m") and op_place(rd._narrow(o)) is not None and op_place(rd._narrow(o))[0] == dest[0] for o in rv2[2]) and any(c.name == "send" for c in rt.body(rv2[1]["coroutine"]).calls):
+                        snd.append(rv2)
             r.check(bool(snd), "read_task/UnknownLane/sent", rd.loc(line), "the message is sent to the write task")
 
     with ctx.rule("C04.R6", "T2", "on stop every open link is unlinked and pending writes drained; a failed lane unlinks its remotes", floor=6) as r:
@@ -163,7 +169,7 @@ def run(ctx):
             r.check(len(rep) == 1 and ep.dominates(some, rep[0].block) and any(res_guard(d, l) for d, l in g) and all(res_guard(d, l) for d, l in g), "epilogue/rearm-after-write", where(ep),
                     "after each successfully completed write the writer is re-armed (state.replace), whatever else holds", "state.replace in the drain loop is guarded by %s" % g)
             fw = [c for c in sw if len(rep) == 1 and ep.dominates(rep[0].block, c.block)]
-            r.check(len(fw) == 1 and any(d.startswith("disc(replace(") and l == "Some" for d, l, _ in dom_guards(ep, fw[0].block)), "epilogue/follow-up-write-scheduled", where(ep), "a write handed back by replace is scheduled")
+            r.check(len(fw) == 1 and any(re.match(r"^disc\((next\(into_iter\()?replace\(", d) and l == "Some" for d, l, _ in dom_guards(ep, fw[0].block)), "epilogue/follow-up-write-scheduled", where(ep), "a write handed back by replace is scheduled")
         else:
             r.bad("epilogue/drain-ends-only-when-no-write-is-pending", where(ep), "the drain loop over next_write() was not found")
         # the shutdown block is reached from every loop exit of write_task: it dominates the final Ok
@@ -212,7 +218,7 @@ def run(ctx):
     with ctx.rule("C04.R9", "T5", "named arguments are passed in their parameters' positions (no two flags or ids change places at a call site)", floor=20) as r:
         named_argument_rule(ctx, r, [("swimos_runtime", "swimos_runtime::agent::task")], allow={})
 
-    with ctx.rule("C04.R10", "T1+T7", "every frame is addressed with the lane it belongs to (sender state set per frame)", floor=15) as r:
+    with ctx.rule("C04.R10", "T1+T7", "every frame is addressed with the lane it belongs to (sender state set per frame)", floor=7) as r:
         uplinks.frame_lane_name(r, ctx)
 
     with ctx.rule("C04.R11", "T3", "the link relation (which remote is linked to which lane) is changed in both of its indexes and read with the ids in their roles", floor=8) as r:
